@@ -37,6 +37,12 @@ pub struct Dc {
     pub cursor_home_alt: bool,
     /// D13: DECRC may keep the DECTCEM mode bit or bring it in line with the restored visibility
     pub dectcem_alt: Option<bool>,
+    /// D6 (narrowed): cells whose content is not compared (the last-column cell a double-width
+    /// character was drawn into as the final character of the operation)
+    pub free_cells: Vec<(usize, usize)>,
+    /// DECCOLM "erases the screen": where the model has this erase blank (cursor rendition), the
+    /// second cell (default blank) is accepted as well
+    pub erase_alt: Option<(Cell, Cell)>,
     pub why: Vec<&'static str>,
 }
 
@@ -50,6 +56,10 @@ impl Dc {
 pub struct Model {
     pub s: Snap,
     pub dc: Dc,
+    /// the operation switched reverse video (DECSCNM on <-> off): C12 demands every row dirty
+    pub all_dirty: bool,
+    /// may a D6 draw be judged narrowly (nothing follows it inside this operation)?
+    d6_narrow: bool,
     /// facts about what happened (vacuity counters)
     pub scrolled: bool,
     pub wrapped: bool,
@@ -64,7 +74,7 @@ fn n1(p: P) -> u32 {
 
 impl Model {
     pub fn new(pre: &Snap) -> Model {
-        Model { s: pre.clone(), dc: Dc::default(), scrolled: false, wrapped: false }
+        Model { s: pre.clone(), dc: Dc::default(), all_dirty: false, d6_narrow: true, scrolled: false, wrapped: false }
     }
 
     fn c(&self) -> u32 {
@@ -321,7 +331,8 @@ impl Model {
         }
     }
     fn draw(&mut self, text: &str) {
-        for ch0 in text.chars() {
+        let n_chars = text.chars().count();
+        for (ci, ch0) in text.chars().enumerate() {
             let ch = self.translate(ch0);
             let w = ch.width().unwrap_or(0) as u32;
             let c = self.c();
@@ -342,7 +353,14 @@ impl Model {
                 self.s.grid[y][x] = self.s.cursor.attr.with_data(&ch.to_string());
             } else if w == 2 {
                 if c == 1 || x + 1 >= c as usize {
-                    self.dc.mark_all("D6 double-width in the last column");
+                    if self.d6_narrow && ci + 1 == n_chars {
+                        // nothing follows: only what that one cell holds is left open; the cursor
+                        // ends at the pending-wrap column and nothing else changes
+                        self.dc.free_cells.push((y, x));
+                        self.dc.why.push("D6 double-width in the last column (cell content only)");
+                    } else {
+                        self.dc.mark_all("D6 double-width in the last column");
+                    }
                 }
                 self.s.grid[y][x] = self.s.cursor.attr.with_data(&ch.to_string());
                 if x + 1 < c as usize {
@@ -461,6 +479,9 @@ impl Model {
 
     fn sm(&mut self, modes: &[u32], private: bool) {
         let ml = Self::mode_list(modes, private);
+        if ml.contains(&DECSCNM) && !self.has(DECSCNM) {
+            self.all_dirty = true;
+        }
         for m in &ml {
             self.set_mode_bit(*m, true);
         }
@@ -473,6 +494,7 @@ impl Model {
             self.s.saved_columns = Some(self.c());
             self.resize(self.l(), 132);
             self.dc.cursor_pos = false;
+            self.dc.erase_alt = Some((self.eblank(), self.blank()));
             self.ed(Some(2));
             self.cup(None, None);
         }
@@ -486,6 +508,10 @@ impl Model {
                 }
             }
             self.s.cursor.attr.flags |= F_REVERSE;
+            if let Some((a, b)) = self.dc.erase_alt.as_mut() {
+                a.flags |= F_REVERSE;
+                b.flags |= F_REVERSE;
+            }
         }
         if ml.contains(&DECTCEM) {
             self.s.cursor.hidden = false;
@@ -494,6 +520,9 @@ impl Model {
 
     fn rm(&mut self, modes: &[u32], private: bool) {
         let ml = Self::mode_list(modes, private);
+        if ml.contains(&DECSCNM) && self.has(DECSCNM) {
+            self.all_dirty = true;
+        }
         for m in &ml {
             self.set_mode_bit(*m, false);
         }
@@ -506,6 +535,7 @@ impl Model {
                     self.s.saved_columns = None;
                 }
             }
+            self.dc.erase_alt = Some((self.eblank(), self.blank()));
             self.ed(Some(2));
             self.cup(None, None);
         }
@@ -519,6 +549,10 @@ impl Model {
                 }
             }
             self.s.cursor.attr.flags &= !F_REVERSE;
+            if let Some((a, b)) = self.dc.erase_alt.as_mut() {
+                a.flags &= !F_REVERSE;
+                b.flags &= !F_REVERSE;
+            }
         }
         if ml.contains(&DECTCEM) {
             self.s.cursor.hidden = true;
@@ -701,8 +735,10 @@ impl Model {
                     }
                 }
             }
+            self.d6_narrow = i + 1 == ev.len();
             self.apply(e);
         }
+        self.d6_narrow = true;
     }
 }
 
@@ -802,7 +838,15 @@ pub fn compare(exp: &Snap, obs: &Snap, dc: &Dc, comps: &[Comp]) -> Vec<(Comp, St
                 'g: for y in 0..exp.grid.len() {
                     for x in 0..exp.grid[y].len() {
                         let (e, o) = (&exp.grid[y][x], &obs.grid[y][x]);
-                        let same = if dc.grid_rendition { e.data == o.data } else { e == o };
+                        if dc.free_cells.contains(&(y, x)) {
+                            continue;
+                        }
+                        let mut same = if dc.grid_rendition { e.data == o.data } else { e == o };
+                        if !same {
+                            if let Some((eb, alt)) = &dc.erase_alt {
+                                same = e == eb && o == alt;
+                            }
+                        }
                         if !same {
                             out.push((
                                 *comp,
@@ -927,7 +971,10 @@ pub fn compare(exp: &Snap, obs: &Snap, dc: &Dc, comps: &[Comp]) -> Vec<(Comp, St
                 if dc.saved_columns {
                     continue;
                 }
-                if exp.saved_columns != obs.saved_columns {
+                // remembering 132 on a screen that is 132 wide is the same as remembering nothing:
+                // RM restores "the previous width" either way
+                let norm = |s: &Snap| if s.columns == 132 { s.saved_columns.filter(|w| *w != 132) } else { s.saved_columns };
+                if norm(exp) != norm(obs) {
                     out.push((
                         *comp,
                         format!("saved_columns expected {:?} observed {:?}", exp.saved_columns, obs.saved_columns),
